@@ -242,14 +242,14 @@ class Evaluator:
             if isinstance(st.value, ast.Constant):
                 return
             c = st.value
-            if isinstance(c, ast.Call) and isinstance(c.func, ast.Attribute) and c.func.attr in ('append', 'extend') and \
+            if isinstance(c, ast.Call) and isinstance(c.func, ast.Attribute) and c.func.attr in ('append', 'extend', 'add', 'update') and \
                     isinstance(c.func.value, ast.Name) and c.func.value.id in env and env[c.func.value.id].kind == 'list' and \
                     env[c.func.value.id].items is not None and len(c.args) == 1:
                 cur = env[c.func.value.id]
                 if sum(1 for v_ in env.values() if v_ is cur) > 1:
                     raise Unknown('in-place change of a list that has two names')
                 v = self.ev(c.args[0], env)
-                if c.func.attr == 'append':
+                if c.func.attr in ('append', 'add'):
                     env[c.func.value.id] = AV('list', items=cur.items + (v,))
                 else:
                     if v.items is None:
@@ -320,6 +320,21 @@ class Evaluator:
             return
         if isinstance(st, ast.FunctionDef) and not st.decorator_list:
             env[st.name] = AV('func', val=('closure', st, env))
+            return
+        if isinstance(st, ast.While):
+            n_iter = 0
+            while truth(self.ev(st.test, env)):
+                n_iter += 1
+                if n_iter > 2000:
+                    raise Unknown('loop does not end within 2000 iterations on this carrier')
+                try:
+                    self.exec_block(st.body, env)
+                except _Continue:
+                    continue
+                except _Break:
+                    break
+            else:
+                self.exec_block(st.orelse, env)
             return
         if isinstance(st, ast.Break):
             raise _Break()
@@ -464,6 +479,13 @@ class Evaluator:
             raise Unknown(f'attribute {node.attr} of {v!r}')
         if isinstance(node, ast.BinOp):
             a, b = self.ev(node.left, env), self.ev(node.right, env)
+            if isinstance(node.op, (ast.Add, ast.Sub)) and a.kind in ('date', 'datetime') and b.kind == 'timedelta' and \
+                    isinstance(a.val, tuple) and a.val[0] == 'day':
+                k = b.val[1] if isinstance(node.op, ast.Add) else -b.val[1]
+                return AV(a.kind, val=('day', a.val[1] + k), origin=a.origin)
+            if isinstance(node.op, ast.Sub) and a.kind in ('date', 'datetime') and a.kind == b.kind and isinstance(a.val, tuple) and \
+                    isinstance(b.val, tuple) and a.val[0] == 'day' and b.val[0] == 'day':
+                return AV('timedelta', val=('days', a.val[1] - b.val[1]))
             if isinstance(node.op, ast.Add) and a.kind == b.kind and a.kind in ('list', 'tuple') and a.items is not None and \
                     b.items is not None:
                 return AV(a.kind, items=a.items + b.items)
@@ -487,26 +509,32 @@ class Evaluator:
                 raise Unknown('yield outside a followed generator')
             self._yields[-1].append(self.ev(node.value, env) if node.value is not None else AV('none'))
             return AV('none')
-        if isinstance(node, ast.GeneratorExp) or isinstance(node, ast.ListComp):
-            if len(node.generators) != 1:
-                raise Unknown('nested comprehension')
-            g = node.generators[0]
-            it = self.ev(g.iter, env)
-            if it.items is None:
-                raise Unknown('comprehension over a collection of unknown contents')
+        if isinstance(node, (ast.GeneratorExp, ast.ListComp, ast.SetComp)):
             out = []
-            e2 = dict(env)
-            for x in it.items:
-                if isinstance(g.target, ast.Name):
-                    e2[g.target.id] = x
-                elif isinstance(g.target, ast.Tuple) and x.items is not None and len(x.items) == len(g.target.elts):
-                    for t_, y in zip(g.target.elts, x.items):
-                        e2[t_.id] = y
-                else:
-                    raise Unknown('comprehension target')
-                if all(truth(self.ev(c, e2)) for c in g.ifs):
+
+            def gen(k, e2):
+                if k == len(node.generators):
                     out.append(self.ev(node.elt, e2))
+                    return
+                g = node.generators[k]
+                it = self.ev(g.iter, e2)
+                if it.items is None:
+                    raise Unknown('comprehension over a collection of unknown contents')
+                for x in it.items:
+                    e3 = dict(e2)
+                    if isinstance(g.target, ast.Name):
+                        e3[g.target.id] = x
+                    elif isinstance(g.target, ast.Tuple) and x.items is not None and len(x.items) == len(g.target.elts):
+                        for t_, y in zip(g.target.elts, x.items):
+                            e3[t_.id] = y
+                    else:
+                        raise Unknown('comprehension target')
+                    if all(truth(self.ev(c, e3)) for c in g.ifs):
+                        gen(k + 1, e3)
+            gen(0, dict(env))
             return AV('list', items=tuple(out))
+        if isinstance(node, ast.Set):
+            return AV('list', items=tuple(self.ev(e, env) for e in node.elts))
         if isinstance(node, ast.JoinedStr):
             return AV('str', text='other')
         if isinstance(node, ast.Subscript):
@@ -587,6 +615,36 @@ class Evaluator:
             return to_str(self.ev(node.args[0], env))
         if name == 'bool':
             return const_av(truth(self.ev(node.args[0], env)))
+        if name == 'sum' and node.args:
+            v = self.ev(node.args[0], env)
+            if v.items is None or not all(isinstance(x.val, (int, float)) and not isinstance(x.val, tuple) for x in v.items):
+                raise Unknown('sum')
+            start = self.ev(node.args[1], env).val if len(node.args) > 1 else 0
+            return const_av(start + sum(x.val for x in v.items))
+        if name in ('set', 'frozenset'):
+            if not node.args:
+                return AV('list', items=())
+            v = self.ev(node.args[0], env)
+            if v.items is None:
+                raise Unknown(name)
+            return AV('list', items=tuple(v.items))
+        if name in ('sorted', 'min', 'max') and len(node.args) == 1 and not node.keywords:
+            v = self.ev(node.args[0], env)
+            if v.items is None:
+                raise Unknown(name)
+
+            def keyf(x):
+                if isinstance(x.val, tuple) and x.val[0] in ('day', 'ymd'):
+                    return x.val[1:]
+                if isinstance(x.val, (int, float)) and not isinstance(x.val, bool):
+                    return (x.val,)
+                raise Unknown(f'{name} of values without a concrete carrier')
+            items = sorted(v.items, key=keyf)
+            if name == 'sorted':
+                return AV('list', items=tuple(items))
+            if not items:
+                raise AbsRaise('ValueError', name)
+            return items[0] if name == 'min' else items[-1]
         if name in ('any', 'all') and len(node.args) == 1:
             v = self.ev(node.args[0], env)
             if v.items is None:
@@ -641,6 +699,12 @@ class Evaluator:
                 target = pref + f.attr if (pref + f.attr) in self.members or (pref + f.attr) in self.hooks else f.attr
                 return self.call_method(target, args, env.get('self'))
             txt = ast.unparse(f)
+            if txt == 'datetime.timedelta':
+                kw = {k.arg: self.ev(k.value, env) for k in node.keywords}
+                d = kw.get('days', self.ev(node.args[0], env) if node.args else const_av(0))
+                if set(kw) - {'days'} or not isinstance(d.val, int):
+                    raise Unknown('timedelta')
+                return AV('timedelta', val=('days', d.val))
             if txt == 'datetime.datetime' or txt == 'datetime.datetime.combine':
                 args = [self.ev(a, env) for a in node.args]
                 origin = next((a.origin for a in args if a.origin), '')
@@ -664,8 +728,11 @@ class Evaluator:
             if recv.kind == 'str' and f.attr == 'isdigit':
                 return const_av(recv.text == 'int')
             if recv.kind == 'datetime' and f.attr == 'date':
-                return AV('date', origin=recv.origin)
+                return AV('date', origin=recv.origin, val=recv.val if isinstance(recv.val, tuple) and recv.val[0] == 'day' else None)
             if recv.kind in ('date', 'datetime') and f.attr in ('weekday', 'isoweekday'):
+                if isinstance(recv.val, tuple) and recv.val[0] == 'day':
+                    wd = recv.val[1] % 7
+                    return const_av(wd if f.attr == 'weekday' else wd + 1)
                 if isinstance(recv.val, tuple) and recv.val[0] == 'weekday':
                     wd = recv.val[1]
                     return const_av(wd if f.attr == 'weekday' else wd + 1)
@@ -760,6 +827,10 @@ class Evaluator:
             a = AV('int', sign='zero', val=0, origin=a.origin)
         if b.kind == 'blank':
             b = AV('int', sign='zero', val=0, origin=b.origin)
+        if a.kind in ('date', 'datetime') and a.kind == b.kind and isinstance(a.val, tuple) and isinstance(b.val, tuple) and \
+                a.val[:1] == ('day',) and b.val[:1] == ('day',):
+            x, y = a.val[1], b.val[1]
+            return {ast.Lt: x < y, ast.LtE: x <= y, ast.Gt: x > y, ast.GtE: x >= y}[type(op)]
         if a.kind in ('date', 'datetime') and a.kind == b.kind and isinstance(a.val, tuple) and isinstance(b.val, tuple) and \
                 a.val[:1] == ('ymd',) and b.val[:1] == ('ymd',):
             x, y = a.val[1:], b.val[1:]
